@@ -172,12 +172,18 @@ func c06Probe(w *World, bt *BuiltTx) {
 	}
 	cands := map[string]bool{}
 	add := func(v *big.Int) {
-		if v.Sign() > 0 && v.Cmp(total) != 0 {
+		if v.Sign() >= 0 && v.Cmp(total) != 0 {
 			cands[v.String()] = true
 		}
 	}
 	add(new(big.Int).Sub(total, big.NewInt(1)))
 	add(new(big.Int).Add(total, big.NewInt(1)))
+	if total.BitLen() > 63 {
+		// what a sum computed in 64-bit arithmetic would come to
+		add(new(big.Int).Mod(total, pow2(64)))
+		add(new(big.Int).Mod(total, pow2(63)))
+		w.Class("c06.exact-fee-above-2^63")
+	}
 	for mask := 1; mask < (1<<uint(len(feeOps)))-1; mask++ {
 		var sub []*BuiltOp
 		for i, o := range feeOps {
